@@ -3,10 +3,10 @@ from ..rules import drivers, perm, save
 
 META = {
     "title": "Resuming from an autosave gives the same results as an uninterrupted run",
-    "technique": "static analysis: sibling entry points must apply the same post-processing (index-space "
+    "technique": "who-compares-by-identity query over the methods of the pickled class hierarchy with class-hierarchy resolution of the compared constant; static analysis: sibling entry points must apply the same post-processing (index-space "
                  "typing of the returned results), must-pass-through of the autosave removal, pickle hook pairing; whole-dictionary frame condition of the pickle hooks; who-may-call of save_simulation",
     "design_ref": "DESIGN.md §5 C26",
-    "explanation": "ENTRY: run (via _run_from_sequence_data) and resume both return results typed register-order "
+    "explanation": "PICKLE-identity: every `is` / `is not` test on a field of the pickled driver compares with None/True/False or an Enum member (a singleton after unpickling; a string or plain class attribute is a new object after resume, so the test silently flips). ENTRY: run (via _run_from_sequence_data) and resume both return results typed register-order "
                    "by PERM, i.e. both go through permute_results under the reordering flag; _run removes the "
                    "autosave file on every normal return and returns impl.results; resume re-points "
                    "impl.autosave_file at the resumed file. PICKLE: every entry __getstate__ serialises with "
@@ -31,3 +31,4 @@ def check(ctx):
     drivers.results_helpers(ctx)
     drivers.autosave_content(ctx)
     drivers.autosave_callers(ctx)
+    save.identity_tests_survive_pickling(ctx)
